@@ -46,11 +46,11 @@ type Prop struct{}
 func (Prop) ID() string    { return "C18" }
 func (Prop) Level() string { return "exploration" }
 func (Prop) Rule() string {
-	return "ring: every node-type pattern of length 1..5 and every third of length 6 over the alphabet {tree-only, tree+other types, non-tree} (thorough: all patterns of length 1..6 over 5 letters, adding tree+file and coordinator+consensus) and ring7: the patterns of length 7 over the 3-letter alphabet (quick: every ninth, thorough: all) are one base configuration each with PRNG peer ids; every node and a client get their own nodeconf.Service (app container, stub source/store/checker) and are asked NodeIds/IsResponsible/Partition for 200 (thorough 400) space ids (with suffix, shared suffixes, no dot, empty suffix, several dots, empty id); the same questions are asked on rewritings of the configuration that keep the tree-node set (quick: 3 of 6 per base configuration, alternating; thorough: all 6) (permuted, non-tree nodes added, non-tree nodes dropped, extra types stripped, metadata/addresses changed, reversed). A configuration is non-trivial when it has >= 2 tree nodes; distinct = (pattern, concrete types, peer ids). paths: random configurations whose participants receive the configuration directly, from the store, or through a source update while running."
+	return "ring: every node-type pattern of length 1..5 and every third of length 6 over the alphabet {tree-only, tree+other types, non-tree} (thorough: all patterns of length 1..6 over 5 letters, adding tree+file and coordinator+consensus) and ring7: the patterns of length 7 over the 3-letter alphabet (quick: every ninth, thorough: all) are one base configuration each with PRNG peer ids; every node and a client get their own nodeconf.Service (app container, stub source/store/checker) and are asked NodeIds/IsResponsible/Partition for 200 (thorough 400) space ids (with suffix, shared suffixes, no dot, empty suffix, several dots, empty id); the same questions are asked on rewritings of the configuration that keep the tree-node set (quick: 3-4 of 7 per base configuration, alternating; thorough: all 7) (permuted, non-tree nodes added, non-tree nodes dropped, extra types stripped, metadata/addresses changed, reversed, roles split into one entry per role with every tree node and a client asked). A configuration is non-trivial when it has >= 2 tree nodes; distinct = (pattern, concrete types, peer ids). paths: random configurations whose participants receive the configuration directly, from the store, or through a source update while running."
 }
 func (Prop) Assumptions() []string {
 	return []string{
-		"peer ids inside one configuration are unique (a duplicate is refused by Init and is outside the property)",
+		"a peer id appears in at most one entry that carries the type \"tree\" (a second one is refused by Init and is outside the property); the same peer id listed once per role is legal and is the roles-split rewriting",
 		"'replication factor' is the exported constant nodeconf.ReplicationFactor; 'sync node' is a node whose type list contains \"tree\"",
 		"for an id without a dot the property does not say what the replication key is; the oracle only demands agreement, size, membership and self-exclusion for such ids (that \"k\" and \"x.k\" coincide is counted, not demanded)",
 		"Partition is observed and compared but the statement does not mention it, so a disagreement is counted (info.partition_disagreement), not judged",
@@ -466,6 +466,35 @@ func variants(c *lib.Case, cfg nodeconf.Configuration) map[string]nodeconf.Confi
 		meta.Nodes[i].Addresses = []string{fmt.Sprintf("192.168.%d.1:99", i), "quic://h:1"}
 	}
 	out["metadata-changed"] = meta
+	// roles-split: the same peer id listed once per role (the layout of the repository's own yaml
+	// example): every tree node becomes two entries, one carrying only "tree" and one carrying its
+	// other types (or "coordinator" if it had none), in either order; the tree-node set is unchanged
+	// (added after seeded change C18-4 - IsResponsible consulting only the first entry of a peer - was missed)
+	split := cloneConf(cfg)
+	split.Nodes = split.Nodes[:0]
+	for _, n := range cloneConf(cfg).Nodes {
+		if !isTree(n) {
+			split.Nodes = append(split.Nodes, n)
+			continue
+		}
+		var other []nodeconf.NodeType
+		for _, t := range n.Types {
+			if t != nodeconf.NodeTypeTree {
+				other = append(other, t)
+			}
+		}
+		if len(other) == 0 {
+			other = []nodeconf.NodeType{nodeconf.NodeTypeCoordinator}
+		}
+		a := nodeconf.Node{PeerId: n.PeerId, Addresses: append([]string(nil), n.Addresses...), Types: []nodeconf.NodeType{nodeconf.NodeTypeTree}}
+		b := nodeconf.Node{PeerId: n.PeerId, Addresses: append([]string(nil), n.Addresses...), Types: other}
+		if c.Rng.Intn(3) == 0 {
+			split.Nodes = append(split.Nodes, a, b)
+		} else {
+			split.Nodes = append(split.Nodes, b, a)
+		}
+	}
+	out["roles-split"] = split
 	return out
 }
 
@@ -790,7 +819,25 @@ func runConfig(c0 *lib.Case, cfg nodeconf.Configuration, qs []spaceQ, modeOf fun
 		v := vs[name]
 		var vps []*participant
 		// asked from one fresh participant: alternately a tree node of the rewritten configuration and a client
-		if vi%2 == 1 {
+		if name == "roles-split" {
+			// every tree node of the rewritten configuration is asked, and a client
+			for _, n := range v.Nodes {
+				if isTree(n) {
+					p, err := startParticipant(n.PeerId, "tree", modeDirect, v, nil)
+					if err != nil {
+						c.Violation("start-error:variant:"+name, "a participant could not start on a rewritten configuration", map[string]any{"config": describeCfg(v), "err": err.Error()})
+						return
+					}
+					vps = append(vps, p)
+				}
+			}
+			vc, err := startParticipant(newPeerId(c0), "client", modeDirect, v, nil)
+			if err != nil {
+				c.Violation("start-error:variant:"+name, "a client could not start on a rewritten configuration", map[string]any{"config": describeCfg(v), "err": err.Error()})
+				return
+			}
+			vps = append(vps, vc)
+		} else if vi%2 == 1 {
 			for _, n := range v.Nodes {
 				if isTree(n) {
 					p, err := startParticipant(n.PeerId, "tree", modeDirect, v, nil)
